@@ -209,14 +209,22 @@ pub fn run(run: &RunInfo) -> Summary {
         let ls = letters(&table, def);
         let nfl: Vec<&Letter> = ls.iter().filter(|l| !l.is_final).collect();
         let fl: Vec<&Letter> = ls.iter().filter(|l| l.is_final).collect();
-        let (cmd_v, cmd_bytes) = command_value(&table, def);
+        let cmds = command_values(&table, def);
         let finals: Vec<&str> = fl.iter().map(|l| l.variant).collect();
         let is_final = |v: &str| finals.contains(&v);
         let ws: Vec<Vec<usize>> = match first {
             None => vec![vec![]],
             Some(f) => words(nfl.len(), depth - 1).into_iter().map(|mut w| { w.insert(0, f); w }).collect(),
         };
-        for w in ws {
+        for (ci, w) in (0..cmds.len()).flat_map(|ci| ws.iter().map(move |w| (ci, w.clone()))) {
+            // the further inputs of the sequence run with scripts of at most two non-final packets
+            if ci > 0 && w.len() > 2 {
+                continue;
+            }
+            let (cmd_v, cmd_bytes) = (&cmds[ci].0, &cmds[ci].1);
+            if ci > 0 {
+                acc.count("w_other_inputs", 1);
+            }
             for f in &fl {
                 let mut script: Vec<&Letter> = w.iter().map(|i| nfl[*i]).collect();
                 script.push(f);
@@ -234,18 +242,18 @@ pub fn run(run: &RunInfo) -> Summary {
                             let sh: Sh = Rc::new(RefCell::new(std::mem::replace(ctx, Ctx::new(vec![], vec![], 0))));
                             let s = Scripted::new(sh.clone(), incoming.clone(), if budget == 0 { Chunking::Greedy } else { Chunking::Deviations });
                             let stop: Option<&dyn Fn(&str) -> bool> = if dropped { Some(&is_final) } else { None };
-                            let log = (def.run)(&cmd_v, &s, stop);
+                            let log = (def.run)(cmd_v, &s, stop);
                             let events = s.st.borrow().log.clone();
                             let consumed = s.consumed();
                             drop(s);
                             *ctx = Rc::try_unwrap(sh).ok().expect("context still shared").into_inner();
                             acc.count("executions", 1);
-                            let ex = Exchange { cmd: &cmd_bytes, script: script.iter().map(|l| (&l.bytes[..], l.debug.clone(), Answer::Ack)).collect(), trailer: &trailer, dropped };
+                            let ex = Exchange { cmd: cmd_bytes, script: script.iter().map(|l| (&l.bytes[..], l.debug.clone(), Answer::Ack)).collect(), trailer: &trailer, dropped };
                             let mut problems = verify(&ex, &events, &log);
                             if problems.is_empty() && consumed != total {
                                 problems.push(format!("the sequence consumed {consumed} bytes, the exchange ends at byte {total} (trailer of {} bytes must stay in the connection)", trailer.len()));
                             }
-                            acc.set("outcomes", h64(&(def.name, &name, &tname, dropped, problems.is_empty())));
+                            acc.set("outcomes", h64(&(def.name, ci, &name, &tname, dropped, problems.is_empty())));
                             if problems.is_empty() {
                                 if script.len() >= 2 {
                                     acc.count("w_nonfinal", 1);
@@ -259,13 +267,13 @@ pub fn run(run: &RunInfo) -> Summary {
                             }
                             if !problems.is_empty() {
                                 let choices = ctx.choices();
-                                let key = format!("c05/{}/script={name}/trailer={tname}/dropped={dropped}/choices={choices:?}", def.name);
+                                let key = format!("c05/{}{}/script={name}/trailer={tname}/dropped={dropped}/choices={choices:?}", def.name, if ci > 0 { format!("/input={}", hex_short(cmd_bytes)) } else { String::new() });
                                 acc.violation(viol(
                                     key,
                                     format!(
                                         "sequence {} command {}\nscript: {name}\ntrailer: {tname} ({}), caller {}\n{}\nevent log:\n{}",
                                         def.name,
-                                        hex_short(&cmd_bytes),
+                                        hex_short(cmd_bytes),
                                         hex_short(&trailer),
                                         if dropped { "stops after the final packet" } else { "drains the stream" },
                                         problems.join("\n"),
